@@ -276,4 +276,29 @@ Proof.
     + apply XU. exact Eun.
 Qed.
 
+(* ... and the invariants `sane` of the Standard's record: for a record whose scheme is not "file" and which,
+   when special, has a host (base_shape_ok of Proofs/C01_EqShape.v) *)
+Theorem related_corrS u su :
+  related dbg shs u su -> parse_extra u su ->
+  list_eqb (su_scheme su) str_file = false ->
+  (is_special su = true -> opt_is_some (su_host su) = true) ->
+  corrS dbg shs u su.
+Proof.
+  intros R X Hnf Hsp. pose proof (related_corr u su R X) as C. split; [exact C|].
+  destruct R as [W _ _ _ _ _ Hval]. destruct X as [_ _ XN _ _ _].
+  pose proof (co_hh _ _ _ _ C) as Chh. pose proof (co_auth _ _ _ _ C) as Cau.
+  pose proof (co_at _ _ _ _ C) as Cat. pose proof (co_port _ _ _ _ C) as Cpo.
+  constructor.
+  - unfold cannot_have_username_password_port. rewrite Hnf, orb_false_r. intros Hc.
+    rewrite Hc in Chh. cbn [negb] in Chh. rewrite <- Cpo, <- Cat.
+    destruct (has_authority_b u) eqn:Ha.
+    + destruct (XN Chh eq_refl) as (E1 & E2 & _). rewrite E1, E2, N.eqb_refl. split; reflexivity.
+    + split; [exact (nf_port (wf_noauth_facts u W Ha)) | reflexivity].
+  - intros Hs. pose proof (Hsp Hs) as Hh. destruct (su_host su) as [h|] eqn:Esh; [|discriminate Hh].
+    split; [reflexivity|]. intros _. cbn [host_is_null host_is_empty orb] in *.
+    destruct h; try reflexivity. exfalso. cbn [negb opt_is_some] in *.
+    destruct (XN Chh Cau) as (_ & _ & E3). congruence.
+  - intros Ho. destruct Hval as [V1 _]. exact (proj1 (V1 Ho)).
+Qed.
+
 End Bridge.
